@@ -1,5 +1,5 @@
 //! C16 — threads always make progress through collections and global updates.
-//! The thread programs of `threads.rs` under natural and forced collections: completion (no
+//! The thread programs of `threads.rs` under natural collections: completion (no
 //! deadlock between joins, channel receives, collections and global definitions), join results
 //! delivered exactly once, channel messages delivered once and in order per sender.
 
@@ -12,11 +12,11 @@ pub fn run(ctx: &Ctx, replay: Option<&str>) -> i32 {
          strings), a shared channel for ticks every 7 / 50 / 120 iterations, one channel per worker on which it blocks for 0-5 \
          values from the main thread, global assignment and definition by the main thread in between, draining of exactly the \
          expected number of messages, joins in spawn order, reverse order, through an explicit loop, or interleaved with \
-         draining; natural collections (three cases in four) or a forced one every 500 allocations; JIT on and off. Required: the program \
+         draining; natural collections only (forced ones are C15's domain); JIT on and off. Required: the program \
          finishes (a run that does not finish within 30 s and, retried, within 60 s is reported as lack of progress - it needs \
          well under a second), every join result arrives exactly once and is the worker's value, every sender's messages arrive \
          exactly once and in order. Non-trivial = >=2 workers and >=100 iterations.",
     );
     ctx.assume("the OS scheduler chooses the interleavings; a deadlock is recognised by a generous time limit with one retry, which is the one place besides C17 where a timeout is a violation");
-    threads::run(ctx, replay, "c16", false, 160, 6000)
+    threads::run(ctx, replay, "c16", false, 300, 8000)
 }
